@@ -9,7 +9,7 @@ C05.5  polarity of the BDD path walk (left extends pos, right extends neg, middl
 """
 import re
 from facts import walk, WASM
-from mirflow import FnFlow, Origins
+from mirflow import FnFlow, Origins, op_place
 
 LEVEL = "other"
 
@@ -269,6 +269,116 @@ def run(cx, rep):
             rep.floor("C05.5", "paths of and_empty_status", n, 2)
         except armalg.Uninterpretable as e:
             rep.ob("C05.5", "and-table/uninterpretable", False, "cannot interpret and_empty_status: %s" % e, g2[0].loc())
+
+    # ---------------------------------------------------------------- C05.6
+    rep.rule("C05.6", "alternatives explored in a loop of a recursive decision procedure start from the same state")
+    n66 = scratch_rule(F, rep, "C05.6", lambda f: (f.file or "").endswith(("subtyping/bdd.rs", "subtyping/mapping.rs", "subtyping/subtype.rs", "subtyping/semtype.rs")))
+    rep.floor("C05.6", "recursive calls inside loops of the emptiness procedures", n66, 2)
+    if cx.canary is not None:
+        hits = scratch_rule(cx.canary, None, None, lambda f: True, collect=True)
+        rep.ob("C05.6", "control/canary-scratch", any("backtrack_shared" in h for h in hits) and not any("backtrack_fresh" in h or "backtrack_restored" in h for h in hits),
+               "positive control: the canary crate's shared scratch buffer must be reported and its fresh / restored twins must not (reported: %s)" % hits, "canary/rs/src/lib.rs")
+
+
+MUTATORS = {"push", "insert", "extend", "clear", "remove", "pop", "truncate", "swap", "sort", "retain", "append", "drain", "push_str"}
+VIEW = {"deref", "deref_mut", "as_mut_slice", "as_slice", "borrow_mut", "as_mut", "index_mut", "get_mut", "iter_mut"}
+
+
+def scratch_rule(F, rep, rid, select, collect=False):
+    """In a function that calls itself (or its SCC) from inside a loop, a local that the function owns, that is
+    defined before the loop, written inside it and handed to the recursive call is state shared between the
+    alternatives the loop explores: the second alternative sees what the first one wrote.  Accepted: the local is
+    (re)defined inside the loop, or every path from the recursive call back to the loop header writes it again
+    (restoration)."""
+    from rules.c04 import natural_loops
+    nodes = [g for g, f in F.fns.items() if f.mir]
+    scc_of = {}
+    for i, comp in enumerate(F.sccs(nodes)):
+        if len(comp) > 1 or comp[0] in F.edges.get(comp[0], ()):
+            for g in comp:
+                scc_of[g] = i
+    n = 0
+    hits = []
+    for g in sorted(scc_of):
+        f = F.fns[g]
+        if not select(f):
+            continue
+        flow = FnFlow(f)
+        loops = natural_loops(flow)
+        if not loops:
+            continue
+        argc = f.mir["arg_count"]
+        for h, body in sorted(loops.items()):
+            rec = [c for c in f.calls if c.bb in body and any(scc_of.get(t) == scc_of[g] for t in (c.local_target or []))]
+            if not rec:
+                continue
+            n += len(rec)
+            # owned user locals defined (only) outside this loop
+            for X, info in enumerate(f.mir["locals"]):
+                if X <= argc or not info.get("name"):
+                    continue
+                defs = flow.defs_of(X)
+                if not defs or (info.get("ty") or "").startswith("&"):
+                    continue
+                A = flow.alias_closure({X}, through_calls=VIEW)
+                passed = [c for c in rec if any((op_place(a) or {}).get("l") in A for a in c.term["args"])]
+                if not passed:
+                    continue
+                if any(bi in body for bi, _ in defs):
+                    if not collect:
+                        rep.ob(rid, "%s/%s" % (strip_generics(f.id), info["name"]), True,
+                               sample={"fn": f.id, "local": info["name"], "verdict": "created inside the loop: fresh for every alternative"})
+                    continue
+                wblocks = set()
+                for bi in body:
+                    b = flow.blocks[bi]
+                    for st in b["stmts"]:
+                        if st["k"] == "Assign" and st["place"]["p"] and (st["place"]["l"] in A):
+                            wblocks.add(bi)
+                    t = b["term"]
+                    if t["k"] == "Call":
+                        m = (t["callee"].get("path") or "").rsplit("::", 1)[-1]
+                        if m in MUTATORS and t["args"] and (op_place(t["args"][0]) or {}).get("l") in A:
+                            wblocks.add(bi)
+                if not wblocks:
+                    continue
+                # restoration: from every recursive call that receives X, every path back to the header writes X again
+                bad = None
+                for c in passed:
+                    seen = set()
+                    work = [s_ for s_ in flow.succ(c.bb) if s_ in body]
+                    while work:
+                        b = work.pop()
+                        if b == h:
+                            bad = c
+                            break
+                        if b in seen or b in wblocks or b not in body:
+                            continue
+                        seen.add(b)
+                        work.extend(flow.succ(b))
+                    if bad:
+                        break
+                key = "%s/%s" % (strip_generics(f.id), info["name"])
+                if collect:
+                    if bad:
+                        hits.append(key)
+                    continue
+                rep.ob(rid, key, bad is None,
+                       "%s: `%s` is created before the loop, written inside it and passed to the recursive call %s without being re-created or restored per iteration: the alternative tried in one iteration is still visible in the next, so the search decides a different formula than the one written down" % (
+                           f.id, info["name"], (bad.path if bad else "")), "%s:%s" % (f.file, bad.line if bad else f.line))
+    return hits if collect else n
+
+
+def strip_generics(s):
+    out, d = [], 0
+    for ch in s:
+        if ch == "<":
+            d += 1
+        elif ch == ">":
+            d -= 1
+        elif d == 0:
+            out.append(ch)
+    return "".join(out).replace("::::", "::")
 
 
 def check_region(rep, F, f, what, fam, body, line):
